@@ -94,11 +94,12 @@ class WMSClient(object):
 
     def _query_req(self, query, format):
         req = self.request_template.copy()
+        # forwarded parameters first: they must not replace the negotiated bbox/size/srs/format
+        req.params.update(query.dimensions_for_params(self.fwd_req_params))
         req.params.bbox = query.bbox
         req.params.size = query.size
         req.params.srs = query.srs.srs_code
         req.params.format = format
-        req.params.update(query.dimensions_for_params(self.fwd_req_params))
         return req
 
     def combined_client(self, other, query):
